@@ -315,15 +315,13 @@ QUICK_RULES = {
                 r"seg1_1_s[0123]_s", r"seg(0_1|2_1|1_0|2_2)_s3_[sl]"],
     "c05_userops": [r"(origtx|respstatus|respresume|respsuspend|reqsuspend|reqresume)_(1_1|2_2|4_4|8_8|1_8|8_1)",
                     r"reqstatus_(1_1|2_2|4_4|8_8|1_8|8_1)_\d", r"proxyput_.*", r"respproxyput",
-                    r"(resp|req)dirlist_(0_0|1_2|2_2)", r"dec_proxysegctrl", r"dec_sforeport_(0_1_1_1|2_8_4_2)",
-                    r"dec_sforequest_(0_1_1_0_0|1_2_4_1_1)"],
+                    r"(resp|req)dirlist_(0_0|1_2|2_2)", r"dec_proxysegctrl"],
     "c05_report": [r"e(\d)_s\1", r"e1_s8", r"e8_s1"],
     "c05_wrap": [r"tlv_eid\d"],
     "c06_arith": [r".*"],
     "c06_types": [r"uo_(origtx|respstatus|respresume|respsuspend|reqsuspend|reqresume)_(1_1|8_8|2_4)",
                   r"uo_reqstatus_.*", r"uo_proxyput_(1_1_2|8_1_2|1_0_0)", r"uo_proxysegctrl", r"uo_respproxyput",
-                  r"uo_(resp|req)dirlist_(0_0|1_2)", r"uo_sforeport_(0_1_1_1|2_2_4_8)",
-                  r"uo_sforequest_(0_1_1_0_0|1_2_4_1_1)", r"uo_origtx_badwidth_3_1", r"uo_respresume_badwidth_1_5",
+                  r"uo_(resp|req)dirlist_(0_0|1_2)", r"uo_origtx_badwidth_3_1", r"uo_respresume_badwidth_1_5",
                   r"uo_proxyput_badwidth_[09]", r"uo_reqdirlist_overlong", r"uo_sfore(port|quest)_badwidth",
                   r"fsreq_(00|12|22|overlong)", r"fsresp_(000|102|222|overlong)", r"(flow|msg)_[012]", r"varid_w\d",
                   r"varid_badwidth_(02|08|fe)", r"report_e(\d)_s\1", r"report_badwidth", r"hdr_e(\d)_s\1_c0_m0",
